@@ -314,6 +314,8 @@ TARGETED = [
     'WHITESPACE = _{ " " | "\\t" }\nCOMMENT = _{ "#" ~ (!NEWLINE ~ ANY)* }\nword = @{ ASCII_ALPHA+ }\nline = { word+ ~ (NEWLINE | EOI) }\nsil = _{ word ~ (";" ~ EOI | word) }\nna = !{ word+ }\nfile = { SOI ~ word* ~ EOI }',
     # user rules named like Unicode properties / built-ins (they shadow them) and referenced
     'NUMBER = @{ ASCII_DIGIT+ ~ ("." ~ ASCII_DIGIT+)? }\nLETTER = { \'a\'..\'c\' | "_" }\nname = @{ LETTER ~ (LETTER | ASCII_DIGIT)* }\nsum = { (NUMBER | name) ~ ("+" ~ (NUMBER | name))* }',
+    # rules named like Rust primitive types / prelude items (pest reserves keywords only), of every rule kind
+    'WHITESPACE = _{ " " }\nchar = { !("\\"" | "\\\\") ~ ANY | "\\\\" ~ ANY }\nstr = ${ "\\"" ~ char* ~ "\\"" }\nbool = { "true" | "false" }\nusize = @{ ASCII_DIGIT+ }\nOption = { "?" ~ value }\nu8 = _{ "(" ~ value ~ ")" }\ni32 = !{ "[" ~ (value ~ ("," ~ value)*)? ~ "]" }\nvalue = { str | bool | usize | Option | u8 | i32 }',
     # no normal rule at all (only silent / ! / @ / $ rules) with WHITESPACE and COMMENT defined: the skip type must still be built
     'WHITESPACE = _{ " " | "\\t" }\nCOMMENT = _{ "#" ~ (!NEWLINE ~ ANY)* }\nident = @{ ASCII_ALPHA+ }\nlist = !{ ident ~ ("," ~ ident)* }\nitems = _{ ident+ }\npair = ${ ident ~ "=" ~ ident }',
     # a failed optional that pops an old entry, pushes an EMPTY one and fails; then a repetition over PEEK (ends only if restored)
